@@ -1300,7 +1300,7 @@ func (s *shardedSearcher) replace(shards map[string]zoekt.Searcher) {
 	metricShardsLoaded.Set(float64(len(ranked)))
 }
 
-func loadShard(fn string) (zoekt.Searcher, error) {
+func loadShard(fn string) (_ zoekt.Searcher, err error) {
 	f, err := os.Open(fn)
 	if err != nil {
 		return nil, err
@@ -1310,6 +1310,17 @@ func loadShard(fn string) (zoekt.Searcher, error) {
 	if err != nil {
 		return nil, err
 	}
+
+	// A corrupt shard can make the reader panic (offsets and counts come from
+	// the file). Shards are loaded outside of the per-search recover, so turn
+	// that into a load error instead of taking down the whole process.
+	defer func() {
+		if r := recover(); r != nil {
+			iFile.Close()
+			err = fmt.Errorf("NewSearcher(%s): panic: %v", fn, r)
+		}
+	}()
+
 	s, err := index.NewSearcher(iFile)
 	if err != nil {
 		iFile.Close()
